@@ -84,6 +84,24 @@ class BuiltinMixin:
         ip = z3.ToReal(z3.If(f >= 0, z3.ToInt(f), -z3.ToInt(-f)))
         return R(st, self.new_list(st, self.mkseq([V(Val.FloatV(f - ip), "float"), V(Val.FloatV(ip), "float")]), "tuple"))
 
+    def bi_struct_pack(self, st, a, kw, n):
+        """struct.pack for the two formats used by the hash stream (assumed: injective; '!q' raises outside 64 bits)"""
+        fmt = z3.simplify(vs(a[0].t))
+        if not z3.is_string_value(fmt):
+            raise Unsupported("struct.pack with a computed format")
+        x = a[1]
+        if fmt.as_string() == "!d":
+            if base_type(x.ty) == "float":
+                return R(st, V(Val.BytesV(pack_d(vf(x.t))), "bytes"))
+            if base_type(x.ty) == "int":
+                return R(st, V(Val.BytesV(pack_d_int(vi(x.t))), "bytes"))
+            return R(st, V(Val.BytesV(z3.If(Val.is_FloatV(x.t), pack_d(vf(x.t)), pack_d_int(vi(x.t)))), "bytes"))
+        if fmt.as_string() == "!q":
+            n_ = z3.If(Val.is_BoolV(x.t), z3.If(vb(x.t), 1, 0), vi(x.t))
+            rng = z3.And(n_ >= -(2 ** 63), n_ < 2 ** 63)
+            return self.split(st, rng, lambda s: R(s, V(Val.BytesV(pack_q(n_)), "bytes")), lambda s: [Res(s, None, "raise", "struct.error")])
+        raise Unsupported(f"struct.pack format {fmt}")
+
     def bi_bool(self, st, a, kw, n):
         return R(st, V(BoolV(self.truth(st, a[0])), "bool"))
 
@@ -193,7 +211,9 @@ class BuiltinMixin:
         if isinstance(name, ast.Constant):
             rs = self.getattr(st, a[0], name.value, n.lineno)
             return rs
-        raise Unsupported(f"getattr with a computed name at line {n.lineno}")
+        # computed attribute name: ghost function of (object, name); default argument ignored (declared parameters always exist)
+        f = z3.Function("getattr_dyn", Val, z3.StringSort(), Val)
+        return R(st, V(f(a[0].t, vs(a[1].t)), None))
 
     def bi_all(self, st, a, kw, n):
         """all(xs): every element is truthy (a fresh boolean defined by a quantified fact)"""
